@@ -54,10 +54,14 @@ package index
 // length bounded (it exceeds the limit by at most one record).
 //@ type Index
 //@   invariant @handles self.file != nil && self.writer != nil
+//@   invariant @gc-channels self.gcStop != nil ==> !closed(self.gcStop)
+//@   invariant @closed-once oncedone(self.closeOnce) ==> self.$closed
 //@   invariant @config self.maxFileSize > 0 && self.maxFileSize <= (1 << 30) && self.length < (1 << 32)
 //@   ghost field $Ein (Array Bytes Bool)
 //@   ghost field $Eblk (Array Bytes Int)
 //@   ghost field $pending Bool
+//@   ghost field $closed Bool
+// idx.$closed - Close has stopped the collector and closed the index file.
 // idx.$pending - some index update has not been written to the index files yet (flush ordering D1).
 
 //@ func (idx *Index) Get(key []byte) (blk types.Block, found bool, err error)
@@ -116,7 +120,8 @@ package index
 //@   holds idx.flushLock
 //@   preserves idx
 //@   requires len(newData) < (1 << 31) - 8
-//@   modifies idx.file, idx.fileNum, idx.length, fp(IO)
+//@   modifies idx.file, idx.fileNum, idx.length, idx.file.$open
+//@   ensures @file-fresh idx.file == old(idx.file) || fresh(idx.file)
 //@   ensures @start-below-limit err == nil ==> idx.length - (len(newData) + 8) < idx.maxFileSize
 //@   ensures @position err == nil ==> blk.Offset == wrapu64(ibpos(idx.fileNum, idx.maxFileSize, idx.length - len(newData) - 4))
 //@   ensures @size err == nil ==> blk.Size == len(newData) + 4 && work == len(newData) + 8
@@ -128,8 +133,28 @@ package index
 //@ func (iter *Iterator) Next() (rec Record, done bool, err error)  property C16
 //@   exclusive index iteration is single-threaded by documentation
 
-//@ func (idx *Index) Close() (err error)  property C16
+// Index.Close (C02, C03, C17): stop the collector and wait for it, then flush, then close the
+// file, then (only if all of that succeeded) save the bucket snapshot; a second Close does nothing.
+//@ func (idx *Index) Close() (err error)  property C02 C03 C17
 //@   exclusive Close runs after all users of the index have stopped (Store.Close contract, C17)
+//@   preserves idx
+//@   requires @D1-primary-first !idx.Primary.$pending || idx.Primary.$failed
+//@   requires @record-size-limit forall b BucketIndex :: (b in idx.nextPool) ==> len(idx.nextPool[b]) < (1 << 31) - 8
+//@   modifies fp(FC), idx.gcStop, chan(idx.gcStop), chan(idx.gcDone), idx.curPool, idx.nextPool, idx.outstandingWork, idx.file, idx.fileNum, idx.length, elems(idx.buckets), idx.$pending, idx.$closed
+//@   ghost at return: idx.$closed = idx.$closed || (!idx.file.$open && idx.gcStop == nil)
+//@   ghost var gflusherr bool = true
+//@   ghost var gcloseerr bool = true
+//@   ghost at after call index.Index.Flush#0: gflusherr = ($r1 != nil)
+//@   ghost at after call (*os.File).Close#1: gcloseerr = ($r0 != nil)
+//@   assert at before call index.Index.Flush#0: @C17-stop-before-flush old(idx.gcStop) != nil ==> closed(old(idx.gcStop)) && waited(idx.gcDone)
+//@   assert at before call (*os.File).Close: @C17-flush-before-close event("call:index.Index.Flush") == 1
+//@   assert at before call index.Index.saveBucketState#0: @C02-snapshot-last !gflusherr && !gcloseerr
+//@   ensures @C17-file-closed !idx.file.$open || old(oncedone(idx.closeOnce))
+//@   ensures @C17-collector-stopped idx.gcStop == nil || old(oncedone(idx.closeOnce))
+//@   ensures @C17-closed idx.$closed
+//@   ensures @C02-flushed err == nil && !old(oncedone(idx.closeOnce)) ==> !idx.$pending
+//@   ensures @C02-idempotent old(oncedone(idx.closeOnce)) ==> err == nil && event("call:index.Index.Flush") == 0 && event("call:(*os.File).Close") == 0 && event("call:index.Index.saveBucketState") == 0
+//@   ensures @once oncedone(idx.closeOnce)
 
 //@ func (idx *Index) readBucketInfo(bucket BucketIndex) (cached []byte, pos types.Position, fileNum uint32, err error)  property C16
 //@   holds r(idx.bucketLk)
@@ -145,7 +170,7 @@ package index
 // primary record it can refer to is already in the primary files.
 //@ func (idx *Index) Flush() (work types.Work, err error)
 //@   abstract gap GAP-1: pools+disk record lists implement the ghost index map
-//@   requires @D1-primary-first !idx.Primary.$pending
+//@   requires @D1-primary-first !idx.Primary.$pending || idx.Primary.$failed
 //@   abstract modifies idx.$pending
 //@   abstract ensures err == nil ==> !idx.$pending
 //@   abstract ensures old(!idx.$pending) ==> !idx.$pending
@@ -169,7 +194,6 @@ package index
 // saveBucketState (C02): the snapshot is written to a temporary file and only renamed onto
 // the snapshot name after every byte was flushed and the file closed without error.
 //@ func (idx *Index) saveBucketState() (err error)  property C02
-//@   modifies fp(IO)
 //@   ghost var gflushed bool = false
 //@   ghost var gclosed bool = false
 //@   ghost at after call (*bufio.Writer).Flush#0: gflushed = ($r0 == nil)
@@ -202,13 +226,17 @@ package index
 //@ func (idx *Index) Flush() (work types.Work, err error)  property C03
 //@   preserves idx
 //@   requires @record-size-limit forall b BucketIndex :: (b in idx.nextPool) ==> len(idx.nextPool[b]) < (1 << 31) - 8
-//@   modifies idx.curPool, idx.nextPool, idx.outstandingWork, idx.file, idx.fileNum, idx.length, elems(idx.buckets), fp(IO)
+//@   modifies idx.curPool, idx.nextPool, idx.outstandingWork, idx.file, idx.fileNum, idx.length, elems(idx.buckets), idx.file.$open
+//@   ensures @file-fresh idx.file == old(idx.file) || fresh(idx.file)
 //@   ghost var gflushed bool = false
 //@   ghost at after call (*bufio.Writer).Flush#0: gflushed = ($r0 == nil)
 //@   assert at before call index.Buckets.Put#0: @D2-table-after-log gflushed
-//@   ensures @D2-error-keeps-table !gflushed ==> forall j int :: 0 <= j && j < len(idx.buckets) ==> idx.buckets[j] == old(idx.buckets[j])
+//@   internal ensures @D2-error-keeps-table !gflushed ==> forall j int :: 0 <= j && j < len(idx.buckets) ==> idx.buckets[j] == old(idx.buckets[j])
 //@   loop 0 invariant held(idx.flushLock) && !gflushed && idx.buckets == old(idx.buckets) && idx.maxFileSize == old(idx.maxFileSize)
 //@   loop 0 invariant forall j int :: 0 <= j && j < len(idx.buckets) ==> idx.buckets[j] == old(idx.buckets[j])
-//@   loop 0 invariant inv(idx) && idx.curPool == old(idx.nextPool) && fresh(blks)
+//@   loop 0 invariant inv(idx) && idx.curPool == old(idx.nextPool) && fresh(blks) && (idx.file == old(idx.file) || fresh(idx.file))
 //@   loop 0 invariant forall b BucketIndex :: (b in idx.curPool) ==> len(idx.curPool[b]) < (1 << 31) - 8
 //@   loop 1 invariant held(idx.flushLock) && held(idx.bucketLk) && gflushed && 0 <= $idx && $idx <= len(blks) && idx.buckets == old(idx.buckets)
+
+// everything Index.Close may modify, as a footprint for callers in other packages
+//@ footprint INDEXCLOSE = heap("store/index.Index."), heap("BucketIndex->[]byte"), heap("E:~/store/types.Position"), heap("CH:"), heap("os.File.$open")
